@@ -1188,7 +1188,9 @@ fn interop(o: &Obs, rep: &mut Report, zoo: &Zoo, env2: Option<&Env>, rng: &mut R
 
 // ------------------------------------------------------------------ driver
 fn one_case(cfg: &Cfg, grp: &str, case: u64, rng: &mut Rng, rep: &mut Report, big: bool) {
-    let spec = if big { gen_spec(rng, &[1024, 2048, 4096, 8192], 3, 60) } else { gen_spec(rng, &[4, 16, 64], 5, 60) };
+    // big: the degree cycles with the case index so that even a handful of cases (quick tier) reaches the largest objects
+    let big_ns: &[usize] = match case % 3 { 0 => &[8192], 1 => &[4096], _ => &[1024, 2048] };
+    let spec = if big { (0..8).find_map(|_| gen_spec(rng, big_ns, 4, 60)) } else { gen_spec(rng, &[4, 16, 64], 5, 60) }; // few NTT primes of the smallest sizes exist at large degrees: retry
     let Some(spec) = spec else { rep.count("generator", "no_primes_for_sizes"); return; };
     let opts = if big { ZooOpts { max_size: 16, light: true, rnsp: rng.chance(1, 4), terms_ntt_max_n: 2048 } } else { ZooOpts { max_size: 16, light: false, rnsp: rng.chance(1, 3), terms_ntt_max_n: 64 } };
     let zoo = match build_zoo(&spec, rng, &opts) {
@@ -1219,9 +1221,7 @@ fn one_case(cfg: &Cfg, grp: &str, case: u64, rng: &mut Rng, rep: &mut Report, bi
 
 pub fn run(cfg: &Cfg, rep: &mut Report) -> PropMeta {
     run_cases(cfg, "small", cfg.n(8000, 120000) as u64, rep, |i, rng, rep| one_case(cfg, "small", i, rng, rep, false));
-    if !cfg.quick() || cfg.only_case.is_some() {
-        run_cases(cfg, "big", cfg.n(1, 96) as u64, rep, |i, rng, rep| one_case(cfg, "big", i, rng, rep, true));
-    }
+    run_cases(cfg, "big", cfg.n(1, 96) as u64, rep, |i, rng, rep| one_case(cfg, "big", i, rng, rep, true));
     PropMeta {
         id: "C14", level: "exploration",
         rule: "random parameter sets (3 schemes; N in {4,16,64}, thorough also 1024..8192; 1..5 primes drawn from families: every prime on a byte-width edge 8|9,16|17,..,56|57,58..60 bits, any size, uniform width, one prime per distinct byte width, smallest/largest alternating; plain modulus of 2..60 bits) x a zoo of every serializable type/format (parameters, moduli, plaintexts coefficient/NTT at every level, ciphertexts compact/full/selected-terms of sizes 2..16 from real product chains, every level, both representations, seeded/expanded, BGV correction factors after modulus switching, CKKS rescaled and arbitrary scales, synthetic extreme residues; secret/public/relinearization/Galois (full, sparse, empty)/key-switching keys; Plain1d/2d/3d, Cipher1d/2d/3d incl. empty and ragged; PolynomialSerializer; rns_plain wrappers) x {same context, context rebuilt from deserialized parameters} x {trailing garbage, concatenation of 2..6 objects} + seeded objects in later operations. distinct = distinct (type/format, scheme, structural attributes, byte-width pattern of the chain, plain-modulus width)",
